@@ -26,11 +26,11 @@ TIERS = {
     "thorough": {"runs": 16000, "wall_cap_s": 800, "det_seeds": 128, "det_extra_workers": 4, "fresh_every": 25},
 }
 
-CLASSES = ["TO", "EG", "GS", "CR", "ADVC", "ADVR"]
+CLASSES = ["TO", "EG", "GS", "CR", "ADVC", "ADVR", "EGR"]
 OPK = ["fit0", "fit1", "fit2", "predict", "predict_none", "restart", "clone", "ambient"]
 
 RULE = (
-    "one case = one seeded plan: an estimator class in {ThresholdOptimizer, ExponentiatedGradient, GridSearch, "
+    "one case = one seeded plan: an estimator class in {ThresholdOptimizer, ExponentiatedGradient (classification and BoundedGroupLoss regression), GridSearch, "
     "CorrelationRemover, AdversarialFairnessClassifier, AdversarialFairnessRegressor}, a configuration, a pool of 2-3 data "
     "sets (different rows/groups/width) and a history of 2-8 operations from {fit(D_k), predict-type(X', seed), "
     "predict(X', None), restart via pickle, clone, ambient RNG perturbation} under a planned clock; the first seeds "
@@ -145,6 +145,15 @@ def gen_plan(seed, index, tier):
         plan["data"] = [_cls_dataset(rng, True) for _ in range(ndata)]
         if rng.random() < 0.35:
             plan["data"][1] = _derived_dataset(rng, plan["data"][0], 0)
+    elif cls == "EGR":
+        plan["cfg"] = {"base": base, "loss": rng.choice(["square", "abs"]), "upper_bound": rng.choice([0.03, 0.08, 0.15]),
+                       "eps": rng.choice([0.05, 0.1]), "max_iter": rng.choice([4, 8, 12]), "nu": rng.choice([None, 1e-3, 0.05, 0.05]),
+                       "eta0": 2.0, "lp": rng.random() < 0.4}
+        plan["data"] = []
+        for _ in range(ndata):
+            ds = _cls_dataset(rng, False)
+            ds["rows"] = [(r[0], r[1], rng.choice([0.0, 0.2, 0.4, 0.6, 0.8, 1.0, round(rng.random(), 2)])) for r in ds["rows"]]
+            plan["data"].append(ds)
     elif cls == "CR":
         widths = [rng.randint(3, 6) for _ in range(ndata)]
         if rng.random() < 0.5:
@@ -189,7 +198,7 @@ def _xy(plan, k):
     if xkey not in cache:
         cache[xkey] = pd.DataFrame({"x": [float(r[0]) for r in plan["data"][xkey]["rows"]]})
     rows = ds["rows"]
-    y = np.array([r[2] for r in rows])
+    y = np.array([float(r[2]) if plan["cls"] == "EGR" else r[2] for r in rows])
     g = np.array([f"g{r[1]}" for r in rows])
     return cache[xkey], y, g
 
@@ -215,6 +224,18 @@ def factory(plan):
         return ExponentiatedGradient(_base_learner(cfg["base"]), make_moment(cfg["moment"], "diff", cfg["bound"], 1.0),
                                      objective=objective, eps=cfg["eps"], max_iter=cfg["max_iter"], nu=cfg["nu"],
                                      eta0=cfg["eta0"], run_linprog_step=cfg["lp"])
+    if cls == "EGR":
+        from fairlearn.reductions import ExponentiatedGradient, BoundedGroupLoss, SquareLoss, AbsoluteLoss
+
+        if cfg["base"] == "lr":
+            from sklearn.linear_model import LinearRegression
+
+            base = LinearRegression()
+        else:
+            base = seams.ExactRegressor(col=0, loss=cfg["loss"])
+        loss = SquareLoss(0.0, 1.0) if cfg["loss"] == "square" else AbsoluteLoss(0.0, 1.0)
+        return ExponentiatedGradient(base, BoundedGroupLoss(loss, upper_bound=cfg["upper_bound"]), eps=cfg["eps"],
+                                     max_iter=cfg["max_iter"], nu=cfg["nu"], eta0=cfg["eta0"], run_linprog_step=cfg["lp"])
     if cls == "GS":
         from fairlearn.reductions import GridSearch
 
@@ -237,7 +258,7 @@ def factory(plan):
 def do_fit(plan, est, k):
     cls = plan["cls"]
     ds = plan["data"][k]
-    if cls in ("TO", "EG", "GS"):
+    if cls in ("TO", "EG", "GS", "EGR"):
         X, y, g = _xy(plan, k)
         return est.fit(X, y, sensitive_features=g)
     if cls == "CR":
@@ -255,7 +276,7 @@ def _cr_X(plan, ds):
 def probe_set(plan, k):
     ds = plan["data"][k]
     cls = plan["cls"]
-    if cls in ("TO", "EG", "GS"):
+    if cls in ("TO", "EG", "GS", "EGR"):
         rows = ds["rows"][:10]
         X = pd.DataFrame({"x": [float(r[0]) for r in rows]})
         return X, {"sensitive_features": np.array([f"g{r[1]}" for r in rows])} if cls == "TO" else {}
@@ -274,7 +295,7 @@ def observe(plan, est, k, seed):
         out["pred"] = np.asarray(est.predict(Xp, random_state=seed, **kw))
         d = est.interpolated_thresholder_.interpolation_dict
         out["interp"] = {str(g): {a: (repr(v[a]) if "operation" in a else float(v[a])) for a in sorted(v.keys())} for g, v in d.items()}
-    elif cls == "EG":
+    elif cls in ("EG", "EGR"):
         out["pmf"] = np.asarray(est._pmf_predict(Xp))
         out["pred"] = np.asarray(est.predict(Xp, random_state=seed))
         out["weights"] = [float(est.weights_[t]) for t in sorted(est.weights_.index)]
@@ -355,7 +376,7 @@ def execute(plan, ctx):
     from sklearn.exceptions import NotFittedError
 
     cls = plan["cls"]
-    nu_none = cls == "EG" and plan["cfg"].get("nu") is None
+    nu_none = cls in ("EG", "EGR") and plan["cfg"].get("nu") is None
     refs = {}
 
     def reference(k, via_clone):
@@ -387,7 +408,7 @@ def execute(plan, ctx):
         pre_state = {"cls": cls, "fitted": fitted_on is not None, "ds": fitted_on, "origin": origin, "nfits": min(nfits, 2)}
         ctx.transition({"state": pre_state, "op": op})
         ctx.ops += 1
-        sigbase = {"est": cls, "op": op.rstrip("012") if op.startswith("fit") else op, "origin": origin,
+        sigbase = {"est": "EG" if cls == "EGR" else cls, "op": op.rstrip("012") if op.startswith("fit") else op, "origin": origin,
                    "refit": nfits > 0, "nu_none": nu_none,
                    "other_data_before": bool(op.startswith("fit") and any(d != int(op[3:]) for d in fit_sets))}
         hist.append(op)
@@ -462,7 +483,7 @@ def execute(plan, ctx):
                     ctx.probe("unfitted_predict_did_not_raise_NotFittedError")
             else:
                 okd, d0, _ = ctx.call(observe, plan, est, fitted_on, plan["seeds"][1])
-                if op == "predict_none" and cls in ("TO", "EG"):
+                if op == "predict_none" and cls in ("TO", "EG", "EGR"):
                     Xp, kw = probe_set(plan, fitted_on)
                     ctx.call(est.predict, Xp, **kw)
                     ctx.fault("ambient_rng")
@@ -553,7 +574,7 @@ def _fresh_restart(plan, ctx, est, k, sigbase):
     if cls == "TO":
         queries = [{"method": "_pmf_predict", "args": [Xp], "kwargs": kw},
                    {"method": "predict", "args": [Xp], "kwargs": dict(kw, random_state=seed)}]
-    elif cls == "EG":
+    elif cls in ("EG", "EGR"):
         queries = [{"method": "_pmf_predict", "args": [Xp], "kwargs": {}},
                    {"method": "predict", "args": [Xp], "kwargs": {"random_state": seed}}]
     elif cls == "GS":
@@ -607,7 +628,7 @@ def shrink_candidates(plan):
         if key in cfg and cfg[key] != val and not (key == "grid_size" and p["cls"] == "TO") and \
                 not (key == "constraints" and p["cls"] == "TO" and False):
             yield mod(cfg=dict(cfg, **{key: val}))
-    if p["cls"] in ("TO", "EG", "GS"):
+    if p["cls"] in ("TO", "EG", "GS"):  # (EGR rows are not shrunk: labels are continuous)
         for k, ds in enumerate(p["data"]):
             rows = ds["rows"]
             n = len(rows)
